@@ -76,7 +76,8 @@ def line (toks : List String) : String :=
       "=" ++ str (multVarId idlen true k i s) ++ " =" ++ str (varId idlen k i)
         ++ "\tkind=" ++ kind ++ " bempty=" ++ b01 (s == [])
     | _, _, _, _ => "bad-op"
-  | "split" :: sm :: ng :: bh :: bs =>
+  | op :: sm :: ng :: bh :: bs =>
+    if op ≠ "split" ∧ op ≠ "splitS" then "bad-op" else
     match sm.toInt?, ng.toNat?, unhex bh, bs.mapM (·.toNat?) with
     | some sm, some ng, some base, some bodies =>
       if bodies = [] then "bad-op" else
@@ -84,9 +85,13 @@ def line (toks : List String) : String :=
       let cl := codeList smax bodies ng
       let files := finalFiles (fileWrites base cl.length)
       let r := split smax bodies ng
-      toString cl.length ++ " " ++ " ".intercalate (cl.map (fun p => "[" ++ showIdx p ++ "]")) ++ " ; "
-        ++ " ".intercalate (files.map (fun f => f.1 ++ "=" ++ showIdx (cl.getD f.2 [])))
-        ++ "\tover=" ++ b01 (overSMax smax (guessStmts bodies ng))
+      let over := overSMax smax (guessStmts bodies ng)
+      let elem (i : Nat) : String :=
+        showIdx (cl.getD i []) ++ "/" ++ (match initIndex over cl.length i with | some k => toString k | none => "")
+      toString cl.length ++ " " ++ " ".intercalate ((List.range cl.length).map (fun i => "[" ++ elem i ++ "]")) ++ " ; "
+        ++ " ".intercalate (files.map (fun f => f.1 ++ "=" ++ elem f.2))
+        ++ "\tover=" ++ b01 over ++ " dialect=" ++ (if op = "splitS" then "standard" else "old")
+        ++ " parts1000=" ++ b01 (decide (cl.length > 1001))
         ++ " emptyparts=" ++ b01 (r.1.any (· == []))
         ++ " lastempty=" ++ b01 (r.2 == [])
         ++ " nameclash=" ++ b01 (files.length ≠ (fileWrites base cl.length).length)
